@@ -520,6 +520,16 @@ theorem step_ok {ms : ModState} {s : MState} (h : Inv ms s) (r : Rec)
       simpa [hsc] using this
   | roundtrip same => exact ⟨rfl, h⟩
   | codec ok => exact ⟨rfl, h⟩
+  | readonly touch =>
+    cases touch with
+    | none => exact ⟨rfl, h⟩
+    | some kind =>
+      have hk := h.kinds kind
+      refine ⟨rfl, ?_⟩
+      have := inv_set h kind (mk := { ms.get kind with fs := (ms.get kind).fs.sortKeys }) (k := s.get kind)
+        ⟨rel_sortKeys hk.rel, hk.it, hk.sc, hk.tr⟩
+      rw [MState.set_get_self] at this
+      exact this
 
 /-- The records of an operation sequence with the MODEL's observations. -/
 def modelTrace : ModState → List Rec → List Rec
